@@ -141,6 +141,28 @@ def run(ctx, factor):
             if t is not None and b != t:
                 rep.violate("binary-route-differs-from-text-route", case, {"text_route_stream": t}, {"binary_route_stream": b})
             rep.case(case, b[0] == "ok" and bool(b[1]), tags=["reused-path"])
+        # the object is named the way the user names it: relative paths, names that begin with a dash protected by `./`
+        cwd0 = os.getcwd()
+        try:
+            os.chdir(ctx.scratch.dir)
+            for name in ("./-O2.o", "./plain.o", "sub/../-w", "./-j"):
+                base = objfuzz.assemble(ctx.scratch, [(".text", objfuzz.random_bytes(g, g.int(8, 40)))], name="named")
+                dest = os.path.normpath(os.path.join(ctx.scratch.dir, name))
+                os.makedirs(os.path.join(ctx.scratch.dir, "sub"), exist_ok=True)
+                import shutil
+                shutil.copyfile(base, dest)
+                doc = {"pattern": ["nop"]}
+                b = impl.run_op(ctx.scratch, doc, None, ret="stream", binary_path=name)
+                p = subprocess.run(["objdump", "-d", "-M", "att", name], capture_output=True, text=True)
+                t = impl.run_op(ctx.scratch, doc, p.stdout, ret="stream") if p.returncode == 0 else None
+                case = {"object": name, "cwd": "scratch directory"}
+                if t is not None and b != t:
+                    rep.violate("binary-route-differs-from-text-route", case, {"text_route_stream": t if t[0] != "ok" else t[1][:300]},
+                                {"binary_route_stream": b if b[0] != "ok" else b[1][:300]})
+                rep.case(case, b[0] == "ok", tags=["relative-path"])
+                os.remove(dest)
+        finally:
+            os.chdir(cwd0)
     finally:
         os.environ["PATH"] = old_path
 
